@@ -55,6 +55,12 @@ CHECKS = {
         "text": "Every response produced for the C04 input space (200, 204, 206, 400, 404, 416, 500, built-in pages, form endpoints, handler errors) must carry each of the six hardening / no-cache headers exactly once.",
         "note": "Header names compared case-insensitively; Cache-Control must contain no-store, Vary must name Origin, Accept-CH must be non-empty.",
     },
+    "C11": {
+        "level": "model_checking",
+        "technique": "TLA+ CORS policy (Cors.tla CorsViolations; MC_Cors decision procedure with the substring variant refuted); TLC-generated configurations x Origin near-miss table replayed on Server::process; responses validated by TLC (Trace_Cors)",
+        "text": "Configurations (switch, 0/1/2/4 origins, credentials, method/header lists, max-age; quick: covering subset, thorough: all 128) x 25 Origin values + absent x 3 methods x preflight headers: grants only for an Origin equal to a configured one, exact preflight lists, echo + credentials in allow-all mode, nothing without Origin.",
+        "note": "Policy set through RWS_CONFIG_CORS_* in the process environment, as the server reads it per request; the start-up path that fills those variables is C12's subject.",
+    },
     "C07": {
         "level": "model_checking",
         "technique": "TLA+ spec of the pool (Pool.tla) model-checked by TLC (safety + liveness, spec mutants refuted); TLC-simulated schedules replayed step by step on the real ThreadPool through cfg(rws_verif) gates; free-running hook traces validated by TLC (Trace_Pool)",
